@@ -94,3 +94,40 @@ Lemma partition_parent_full_index_ok : partition_parent_full_index = Some true.
 Proof. vm_compute. reflexivity. Qed.
 Lemma partition_inprocess_parent_ok : partition_inprocess_parent = Some true.
 Proof. vm_compute. reflexivity. Qed.
+
+(** ---- versions (C01 / C03 / C14) ---- *)
+From Memento Require Import Version.Rules Version.RulesProofs Version.Stale Version.StaleProofs.
+
+(** default parameter values are part of what the code hash covers *)
+Lemma defaults_hashed_ok : defaults_hashed = Some true.
+Proof. vm_compute. reflexivity. Qed.
+
+(** set constants are serialised in a canonical order, rules are ordered by their key *)
+Lemma setconst_canonical_ok : setconst_canonical = Some true.
+Proof. vm_compute. reflexivity. Qed.
+Lemma rules_sorted_by_key_ok : rules_sorted_by_key = Some true.
+Proof. vm_compute. reflexivity. Qed.
+
+(** calls made through modifier clones are validated against the function cloned *)
+Lemma clone_validation_ok : clone_validation = Some true.
+Proof. vm_compute. reflexivity. Qed.
+
+Definition current_hd : bool := match defaults_hashed with Some b => b | None => false end.
+
+(** C01 for the code as it is now: same digest input (with what the current source hashes), same behaviour *)
+Theorem current_source_same_contents_same_result : forall sem,
+  (forall c d e1 e2, (forall u, e1 u = e2 u) -> sem c d e1 = sem c d e2) -> forall p q f K,
+  same_structure p q ->
+  s_kind (p f) = SMemento None -> s_kind (q f) = SMemento None ->
+  hashable p f -> hashable q f ->
+  closed p (collect p K f) = true ->
+  version_input p current_hd (collect p K f) = version_input q current_hd (collect q K f) ->
+  forall n, eval sem n p f = eval sem n q f.
+Proof.
+  unfold current_hd. rewrite defaults_hashed_ok. intros. eapply same_contents_same_result; eauto.
+Qed.
+
+(** every rule hash has one width (explicit versions are hashed), so the bytes fed to sha256
+    determine the list of rule hashes *)
+Lemma explicit_fixed_width_ok : explicit_fixed_width = Some true.
+Proof. vm_compute. reflexivity. Qed.
